@@ -12,6 +12,8 @@
 #include <chrono>
 #include <new>
 #include <unistd.h>
+#include <functional>
+#include <vector>
 static std::map<std::string, unsigned long long> in;
 static bool has(const char* k) { return in.count(k) != 0; }
 static unsigned long long get(const char* k, unsigned long long d = 0) { return has(k) ? in[k] : d; }
@@ -161,9 +163,283 @@ static int replay_subscript() {
     std::printf("NOT-REPRODUCED\n"); return 0;
 }
 
+// ---- exception guard of internal_loop_construct -----------------------------------------------------------------------------
+#include <atomic>
+#include <stdexcept>
+#include <sys/wait.h>
+namespace guard {
+enum : int { TAG_PRE = 11, TAG_A = 22, TAG_B = 33 };
+std::atomic<int> throw_at{-1}, a_copies{0};
+std::atomic<bool> parked{false}, release{false}, park{false};
+struct Injected : std::runtime_error { Injected() : std::runtime_error("injected constructor failure") {} };
+struct Elem {
+    int tag; int val;
+    Elem(int t, int v) : tag(t), val(v) {}
+    Elem(const Elem& o) : tag(o.tag), val(o.val) {
+        if (o.tag == TAG_A) {
+            int n = a_copies.fetch_add(1);
+            if (n == throw_at.load()) {
+                if (park.load()) { parked.store(true); while (!release.load()) std::this_thread::yield(); }
+                throw Injected();
+            }
+        }
+    }
+};
+using Vec = tbb::concurrent_vector<Elem>;
+static void reset(int k, bool p) { throw_at = k; a_copies = 0; parked = false; release = false; park = p; }
+// call A (grow_by / grow_by(first,last) / grow_to_at_least) owns [pre, pre+na) and throws at its k-th element while call B, which owns the range
+// right above, has already constructed its elements: B's elements must keep their values
+static bool foreign_range(bool iter, size_t pre, size_t na, int k, size_t nb, char* msg) {
+    Vec v; if (pre) v.grow_by(pre, Elem(TAG_PRE, 1));
+    throw_at = -1;
+    std::vector<Elem> src(na, Elem(TAG_A, 2));
+    reset(k, true);
+    bool threw = false;
+    std::thread ta([&] { try { if (iter) v.grow_by(src.begin(), src.end()); else v.grow_by(na, Elem(TAG_A, 2)); } catch (const Injected&) { threw = true; } });
+    while (!parked.load()) std::this_thread::yield();
+    std::thread tb([&] { v.grow_by(nb, Elem(TAG_B, 3)); });
+    tb.join();
+    release = true; ta.join();
+    for (size_t i = 0; i < pre + size_t(k); ++i) if (threw && v[i].tag != (i < pre ? TAG_PRE : TAG_A)) {
+        std::sprintf(msg, "class=guard-zero-fills-foreign-range %s: call A owns [%zu,%zu), its constructor throws at index %zu: element %zu, constructed before the throw%s, was zero-filled by the exception guard (reads tag %d)",
+                     iter ? "grow_by(first,last)" : "grow_by(n,value)", pre, pre + na, pre + size_t(k), i, i < pre ? " by an earlier call" : "", v[i].tag);
+        return true;
+    }
+    size_t bad = 0, first_bad = 0;
+    for (size_t i = pre + na; i < pre + na + nb; ++i) if (v[i].tag != TAG_B || v[i].val != 3) { if (!bad) first_bad = i; ++bad; }
+    if (bad && threw) {
+        std::sprintf(msg, "class=guard-zero-fills-foreign-range %s: call A owns [%zu,%zu), its constructor throws at index %zu while call B has constructed [%zu,%zu): %zu of B's elements were zero-filled by A's exception guard (first: index %zu reads tag %d, expected %d)",
+                     iter ? "grow_by(first,last)" : "grow_by(n,value)", pre, pre + na, pre + size_t(k), pre + na, pre + na + nb, bad, first_bad, v[first_bad].tag, int(TAG_B));
+        return true;
+    }
+    return false;
+}
+// single-threaded: constructor throws at the k-th element of a call whose range spans several not yet allocated segments.  Run in a child (may crash).
+static int in_child(const std::function<int()>& f) {
+    std::fflush(stdout);
+    pid_t pid = fork();
+    if (pid == 0) { _exit(f()); }
+    int st = 0; waitpid(pid, &st, 0);
+    if (WIFSIGNALED(st)) return 1000 + WTERMSIG(st);
+    return WEXITSTATUS(st);
+}
+static int ctor_throw_scenario(bool iter, size_t pre, size_t n, int k) {
+    // exit code: 0 ok, 3 = damaged/unzeroed state detected
+    Vec v; for (size_t i = 0; i < pre; ++i) v.push_back(Elem(TAG_PRE, 1));
+    throw_at = -1;
+    std::vector<Elem> src(n, Elem(TAG_A, 2));
+    reset(k, false);
+    bool threw = false;
+    try { if (iter) v.grow_by(src.begin(), src.end()); else v.grow_by(n, Elem(TAG_A, 2)); } catch (const Injected&) { threw = true; }
+    if (!threw) return 4;
+    for (size_t i = 0; i < pre; ++i) if (v[i].tag != TAG_PRE) return 3;
+    for (size_t i = pre; i < pre + size_t(k); ++i) if (v[i].tag != TAG_A || v[i].val != 2) return 3;      // constructed before the throw: must be intact
+    auto& b = (Vec::base_type&)v; auto tab = b.get_table();
+    for (size_t i = pre + k; i < pre + n; ++i) {                                                           // not constructed: zero-filled where storage exists
+        size_t s = Vec::base_type::segment_index_of(i);
+        Elem* seg = tab[s].load();
+        if (seg > (Elem*)1 && (seg[i].tag != 0 || seg[i].val != 0)) return 5;
+    }
+    return 0;
+}
+struct CT { size_t pre, n; int k; };
+static bool ctor_throw(bool iter, bool with_holes, char* msg) {
+    // with_holes: the call's range spans segments it has not allocated yet when the constructor throws; otherwise the first block covers the whole range
+    static const CT holes[] = {{1, 30, 1}, {2, 40, 0}, {1, 100, 3}, {3, 13, 1}}, contiguous[] = {{0, 8, 3}, {0, 100, 0}, {0, 100, 99}, {5, 3, 1}, {1, 1, 0}, {2, 2, 1}, {0, 1, 0}};
+    const CT* grid = with_holes ? holes : contiguous; size_t ng = with_holes ? 4 : 7;
+    for (size_t g = 0; g < ng; ++g) {
+        CT c = grid[g];
+        int rc = in_child([&] { return ctor_throw_scenario(iter, c.pre, c.n, c.k); });
+        if (rc >= 1000) {
+            std::sprintf(msg, "class=guard-writes-unallocated-segment %zu x push_back, then %s of %zu elements whose constructor throws at element #%d (index %zu): the exception guard zero-fills through a segment that is not allocated%s -> signal %d instead of the exception reaching the caller",
+                         c.pre, iter ? "grow_by(first,last)" : "grow_by(n,value)", c.n, c.k, c.pre + c.k, with_holes ? " yet" : "", rc - 1000);
+            return true;
+        }
+        if (rc == 3 || rc == 5 || rc == 4) {
+            std::sprintf(msg, "class=loop-construct-state %zu x push_back, then %s of %zu elements whose constructor throws at element #%d: %s", c.pre, iter ? "grow_by(first,last)" : "grow_by(n,value)", c.n, c.k,
+                         rc == 3 ? "an element constructed before the throw lost its value" : rc == 5 ? "a not constructed slot in allocated storage below size() was not zero-filled" : "the exception did not reach the caller");
+            return true;
+        }
+    }
+    return false;
+}
+// no exception: every element of the call constructed exactly once with the requested value, at a stable address
+static int g_ctor_count = 0;
+struct Cnt { int v; Cnt(int x) : v(x) {} Cnt(const Cnt& o) : v(o.v) { ++g_ctor_count; } };
+static bool plain_growth(bool iter, char* msg) {
+    for (size_t pre : {size_t(0), size_t(1), size_t(3), size_t(8), size_t(100)}) for (size_t n : {size_t(1), size_t(2), size_t(7), size_t(64), size_t(1000)}) {
+        tbb::concurrent_vector<Cnt> v; for (size_t i = 0; i < pre; ++i) v.push_back(Cnt(1));
+        std::vector<Cnt> src; for (size_t i = 0; i < n; ++i) src.push_back(Cnt(int(100 + i)));
+        g_ctor_count = 0;
+        auto it = iter ? v.grow_by(src.begin(), src.end()) : v.grow_by(n, Cnt(100));
+        bool ok = size_t(g_ctor_count) == n && size_t(it - v.begin()) == pre && v.size() == pre + n;
+        for (size_t i = 0; ok && i < pre; ++i) ok = v[i].v == 1;
+        for (size_t i = 0; ok && i < n; ++i) ok = v[pre + i].v == (iter ? int(100 + i) : 100);
+        if (!ok) { std::sprintf(msg, "class=loop-construct-state %zu x push_back, then %s of %zu elements: %d constructor calls, returned index %zu, size() %zu, or an element does not hold the requested value", pre, iter ? "grow_by(first,last)" : "grow_by(n,value)", n, g_ctor_count, size_t(it - v.begin()), v.size()); return true; }
+    }
+    return false;
+}
+// allocation failure in the middle of a call's range: the last segment was allocated eagerly by internal_grow
+static int dt_garbage = 0;
+struct D { unsigned v; D(unsigned x) : v(x) {} D(const D& o) : v(o.v) {} ~D() { if (v != 0 && v != 7) ++dt_garbage; } };
+template <class T> struct FA2 {
+    using value_type = T;
+    FA2() = default; template <class U> FA2(const FA2<U>&) {}
+    T* allocate(std::size_t n) { ++calls; if (calls == fail_at) throw std::bad_alloc(); void* p = ::operator new(n * sizeof(T)); std::memset(p, 0xCC, n * sizeof(T)); return (T*)p; }
+    void deallocate(T* p, std::size_t) { ::operator delete(p); }
+    template <class U> bool operator==(const FA2<U>&) const { return true; }
+    template <class U> bool operator!=(const FA2<U>&) const { return false; }
+};
+static bool alloc_failure(bool iter, char* msg) {
+    struct C { size_t pre, n; int nth; } grid[] = {{1, 30, 3}, {1, 30, 2}, {2, 100, 3}, {3, 61, 2}};
+    for (auto c : grid) {
+        dt_garbage = 0; size_t sz = 0;
+        {
+            tbb::concurrent_vector<D, FA2<D>> v;
+            for (size_t i = 0; i < c.pre; ++i) v.push_back(D(7));
+            std::vector<D> src(c.n, D(7));
+            fail_at = calls + c.nth; bool ba = false;
+            try { if (iter) v.grow_by(src.begin(), src.end()); else v.grow_by(c.n, D(7)); } catch (std::bad_alloc&) { ba = true; }
+            fail_at = -1; sz = ((tbb::concurrent_vector<D, FA2<D>>::base_type&)v).my_size.load();
+            dt_garbage = 0;
+            if (!ba) continue;
+        }   // ~concurrent_vector
+        if (dt_garbage) {
+            std::sprintf(msg, "class=alloc-failure-leaves-unconstructed-slots %zu x push_back, then %s of %zu elements with the %d. segment allocation of that call failing (bad_alloc reaches the caller, size counter %zu): ~concurrent_vector ran ~T on %d slots that were never constructed nor zero-filled (allocator fills fresh memory with 0xCC)",
+                         c.pre, iter ? "grow_by(first,last)" : "grow_by(n,value)", c.n, c.nth, sz, dt_garbage);
+            return true;
+        }
+    }
+    return false;
+}
+}  // namespace guard
+
+// ---- segment table entries: create_segment ----------------------------------------------------------------------------------
+namespace segs {
+static thread_local int role = 0;            // 1 = parks inside allocate, then throws bad_alloc; 2 = parks inside allocate, then succeeds
+static std::atomic<int> parked1{0}, parked2{0}, rel1{0}, rel2{0};
+static std::atomic<long> n_alloc{0}, n_free{0}, n_bad_free{0};
+template <class T> struct PA {
+    using value_type = T;
+    PA() = default; template <class U> PA(const PA<U>&) {}
+    T* allocate(std::size_t n) {
+        if (role == 1) { parked1 = 1; while (!rel1) std::this_thread::yield(); throw std::bad_alloc(); }
+        if (role == 2) { parked2 = 1; while (!rel2) std::this_thread::yield(); }
+        ++n_alloc; std::size_t* p = (std::size_t*)::operator new(n * sizeof(T) + 16); p[0] = n; p[1] = 0x5E65E65E; return (T*)(p + 2);
+    }
+    void deallocate(T* q, std::size_t n) { std::size_t* p = (std::size_t*)q - 2; if (p[1] != 0x5E65E65E || p[0] != n) ++n_bad_free; p[1] = 0; ++n_free; ::operator delete(p); }
+    template <class U> bool operator==(const PA<U>&) const { return true; }
+    template <class U> bool operator!=(const PA<U>&) const { return false; }
+};
+using V = tbb::concurrent_vector<int, PA<int>>;
+static void reset() { parked1 = parked2 = rel1 = rel2 = 0; n_alloc = n_free = n_bad_free = 0; }
+// thread A (index 0) and thread C (index 1) are both inside the first-block allocation; B (index 2) owns segment 1, publishes it and constructs its element;
+// then A's allocation throws: B's published segment must stay reachable
+static bool failtag(char* msg) {
+    reset();
+    V v; bool a_ba = false, c_ba = false;
+    std::thread ta([&] { role = 1; try { v.push_back(10); } catch (std::bad_alloc&) { a_ba = true; } });
+    while (!parked1) std::this_thread::yield();
+    std::thread tc([&] { role = 2; try { v.push_back(11); } catch (std::bad_alloc&) { c_ba = true; } });
+    while (!parked2) std::this_thread::yield();
+    auto it = v.push_back(12); int* addr = &*it; size_t idx = size_t(it - v.begin());
+    auto tab = ((V::base_type&)v).get_table(); int* seg_before = tab[1].load();
+    rel1 = 1; ta.join(); rel2 = 1; tc.join();
+    int* seg_after = tab[1].load();
+    if (seg_after != seg_before) {
+        bool threw = false; try { (void)v.at(idx); } catch (std::exception&) { threw = true; }
+        std::sprintf(msg, "class=failure-tag-overwrites-foreign-segment empty vector, my_first_block==1: threads A (index 0) and C (index 1) are inside the first-block allocation, thread B's push_back gets index %zu, allocates and publishes segment 1 (entry %p) and constructs its element; then A's allocation throws bad_alloc: A's failure handler stores the failure tag into embedded entries 1 and 2 (entry 1 now %p): B's live element at %p (value %d) is unreachable (at(%zu) %s) and its segment is leaked",
+                     idx, (void*)seg_before, (void*)seg_after, (void*)addr, *addr, idx, threw ? "throws" : "returns");
+        return true;
+    }
+    return false;
+}
+// election: two threads allocate the first block at the same time; the loser must free its block, entries must agree, nothing leaks
+static bool election(char* msg) {
+    for (int round = 0; round < 3; ++round) {
+        reset();
+        {
+            V v;
+            std::thread tc([&] { role = 2; v.push_back(11); });
+            while (!parked2) std::this_thread::yield();
+            v.push_back(12);                      // main wins the election while tc is parked inside allocate
+            if (round) v.grow_by(size_t(5) << round, 7);
+            rel2 = 1; tc.join();
+            size_t n = v.size(); long sum = 0; for (size_t i = 0; i < n; ++i) sum += v[i];
+            if (!((v[0] == 12 && v[1] == 11) || (v[0] == 11 && v[1] == 12))) { std::sprintf(msg, "class=segment-publication two concurrent push_back into an empty vector: elements read %d,%d", v[0], v[1]); return true; }
+        }
+        if (n_alloc != n_free || n_bad_free) { std::sprintf(msg, "class=segment-publication two threads allocate the first block concurrently: %ld allocations, %ld frees, %ld frees of a wrong block/size after destruction", n_alloc.load(), n_free.load(), n_bad_free.load()); return true; }
+    }
+    return false;
+}
+// grow_to_at_least(n) with n <= size(): must not return while a segment below n is still being allocated by its owner
+static bool g2al_waits(char* msg) {
+    for (size_t pre : {size_t(2), size_t(4), size_t(8)}) {
+        reset();
+        V v; v.grow_by(pre, 1);                                     // segments up to index pre-1 exist
+        std::thread ta([&] { role = 2; v.grow_by(pre, 2); });       // owns [pre, 2*pre): its first index opens a new segment; parks inside that allocation
+        while (!parked2) std::this_thread::yield();
+        std::atomic<bool> done{false};
+        std::thread tb([&] { v.grow_to_at_least(2 * pre); done = true; });
+        std::this_thread::sleep_for(std::chrono::milliseconds(300));
+        bool early = done.load();
+        rel2 = 1; ta.join(); tb.join();
+        if (early) {
+            std::sprintf(msg, "class=g2al-returns-before-segments-allocated size()==%zu after another call claimed [%zu,%zu) whose segment allocation is still in progress: grow_to_at_least(%zu) returned although the segment of index %zu is not allocated yet (v[%zu] would dereference a null segment)",
+                         2 * pre, pre, 2 * pre, 2 * pre, pre, pre);
+            return true;
+        }
+    }
+    return false;
+}
+}  // namespace segs
+static int replay_segs(const std::string& job) {
+    char msg[1400]; bool hit;
+    if (job.find("failtag") != std::string::npos) hit = segs::failtag(msg);
+    else hit = segs::election(msg);
+    if (hit) std::printf("REPRODUCED %s\n", msg); else std::printf("NOT-REPRODUCED\n");
+    return 0;
+}
+
+static int replay_ilc(const std::string& job) {
+    char msg[1024];
+    bool iter = job.size() > 5 && job.compare(job.size() - 5, 5, ".iter") == 0;
+    bool hit = false;
+    struct C { size_t pre, na; int k; size_t nb; } grid[] = {{0, 4, 2, 4}, {10, 5, 2, 20}, {100, 3, 0, 1000}, {2, 4, 3, 6}};
+    auto foreign = [&](bool it) { for (auto c : grid) if (guard::foreign_range(it, c.pre, c.na, c.k, c.nb, msg)) return true; return false; };
+    if (job.find("guard.range") != std::string::npos) hit = foreign(iter) || foreign(!iter);
+    else if (job.find("guard.alloc.hole") != std::string::npos) hit = guard::ctor_throw(iter, true, msg) || guard::ctor_throw(!iter, true, msg);
+    else if (job.find("guard.alloc") != std::string::npos) hit = guard::ctor_throw(iter, false, msg) || foreign(iter);
+    else if (job.find("prealloc") != std::string::npos) hit = guard::alloc_failure(iter, msg) || guard::alloc_failure(!iter, msg);
+    else hit = guard::plain_growth(iter, msg) || guard::ctor_throw(iter, false, msg) || foreign(iter);   // ilc.loop.*
+    if (hit) std::printf("REPRODUCED %s\n", msg); else std::printf("NOT-REPRODUCED\n");
+    return 0;
+}
+
 int main(int argc, char** argv) {
     std::string job = argc > 1 ? argv[1] : "";
     for (int i = 2; i < argc; ++i) { char* e = std::strchr(argv[i], '='); if (e) in[std::string(argv[i], e - argv[i])] = std::strtoull(e + 1, 0, 0); }
+    if (job.rfind("grow.", 0) == 0 || job.rfind("push.", 0) == 0) {
+        char msg[1024];
+        if (guard::plain_growth(false, msg) || guard::plain_growth(true, msg) || guard::ctor_throw(false, false, msg)) { std::printf("REPRODUCED %s\n", msg); return 0; }
+        return replay_growby();
+    }
+    if (job.rfind("ilc.", 0) == 0) return replay_ilc(job);
+    if (job.rfind("seg.create", 0) == 0 || job.rfind("seg.enable", 0) == 0 || job.rfind("table.extend", 0) == 0 || job.rfind("subscript.growing", 0) == 0) return replay_segs(job);
+    if (job.rfind("reserve", 0) == 0) {
+        using V = tbb::concurrent_vector<int>;
+        for (size_t pre : {size_t(0), size_t(1), size_t(2), size_t(3), size_t(8), size_t(9), size_t(100)}) for (size_t n : {size_t(1), size_t(2), size_t(3), size_t(4), size_t(8), size_t(9), size_t(16), size_t(17), size_t(1000), size_t(4096), size_t(4097)}) {
+            V v; std::vector<int*> addr; for (size_t i = 0; i < pre; ++i) { v.push_back(int(i)); }
+            for (size_t i = 0; i < pre; ++i) addr.push_back(&v[i]);
+            v.reserve(n);
+            bool ok = v.size() == pre && v.capacity() >= n && v.capacity() >= pre;
+            for (size_t i = 0; ok && i < pre; ++i) ok = &v[i] == addr[i] && v[i] == int(i);
+            size_t cap = v.capacity(); for (size_t i = pre; ok && i < n; ++i) { v.push_back(7); ok = v.capacity() == cap || i >= cap; }
+            if (!ok) { std::printf("REPRODUCED class=reserve %zu x push_back; reserve(%zu): size()=%zu capacity()=%zu, an element moved, or a later push_back below n had to allocate\n", pre, n, v.size(), v.capacity()); return 0; }
+        }
+        std::printf("NOT-REPRODUCED\n"); return 0;
+    }
+    if (job.rfind("g2al.waits", 0) == 0) { char msg[1024]; if (segs::g2al_waits(msg)) std::printf("REPRODUCED %s\n", msg); else std::printf("NOT-REPRODUCED\n"); return 0; }
     if (job.rfind("at.", 0) == 0) return replay_at();
     if (job.rfind("g2al", 0) == 0) return replay_g2al();
     if (job.rfind("seg.", 0) == 0) return replay_seg();
